@@ -38,7 +38,12 @@ class JsonRoundTrip(Contract):
         labs = [np.asarray(L) for L in env["labels"]]
         # integer-kind labels are drawn as floats by the family: make them integers
         labs = [L.astype(int) if d == 2 else L for d, L in enumerate(labs)]
-        a = S.da.DimArray(np.array(env["data"]), axes=[("x%d" % d, L) for d, L in enumerate(labs)])
+        data = np.array(env["data"])
+        if data.dtype.kind == "f":
+            data = data + 0.1                # decimal fractions: not representable in float32 (a narrowing round trip shows)
+        elif data.dtype.kind == "i" and data.size:
+            data = data.astype(np.int64) + 2 ** 40       # beyond int32
+        a = S.da.DimArray(data, axes=[("x%d" % d, L) for d, L in enumerate(labs)])
         a.attrs.update(META)
         env["a"], env["labs"] = a, labs
         env["before"] = (a.values.copy(), [ax.values.copy() for ax in a.axes], dict(a.attrs))
@@ -63,7 +68,7 @@ class JsonRoundTrip(Contract):
         yield "labels-restored", len(result.axes) == len(a.axes) and all(same(r.values, o.values) and list(map(type, r.values.tolist())) == list(map(type, o.values.tolist()))
                                                                         for r, o in zip(result.axes, a.axes))
         yield "values-restored", same(result.values, a.values)
-        yield "dtype-kind-restored", result.values.dtype.kind == a.values.dtype.kind or a.values.size == 0
+        yield "dtype-restored", result.values.dtype == a.values.dtype or a.values.size == 0
         yield "metadata-restored", dict(result.attrs) == META
         v0, l0, m0 = env["before"]
         yield "serialising-leaves-the-array-untouched", same(a.values, v0) and all(same(ax.values, l) for ax, l in zip(a.axes, l0)) and dict(a.attrs) == m0
